@@ -218,20 +218,27 @@ Definition task_process_event (w : wstate) (r : trec) (e : event) : result (opti
 
 (* -------------------------------------------------------- workflow state machine *)
 
-(* WorkflowStateMachine.add_context_to_task_event *)
+(* WorkflowStateMachine.add_context_to_task_event, as a function of the facts it reads from the state:
+   remediable = has_next_tasks or has_barrier_next; more = has_staged_tasks or has_next_tasks *)
+Definition task_event_name_of (st : status) (remediable active canceling pausing more : bool) : string :=
+  let e0 := TASK_EVENT_PREFIX ++ status_name st in
+  let e1 := if status_in st ABENDED_STATUSES && remediable then EV_TASK_REMEDIATED else e0 in
+  let e2 := if string_in e1 TASK_CONDITIONAL_EVENTS
+            then e1 ++ (if active then "_workflow_active" else "_workflow_dormant")
+            else e1 in
+  if negb (starts_with EV_TASK_SUCCEEDED e2) && negb (starts_with EV_TASK_REMEDIATED e2) then e2
+  else if canceling then e2 ++ "_canceled"
+  else if pausing then e2 ++ "_paused"
+  else if more then e2 ++ "_incomplete"
+  else e2 ++ "_completed".
+
 Definition wf_task_event_name (g : graph) (w : wstate) (t : string) (route : nat) (st : status) : string :=
   let hbn := has_barrier_next g w t route in
   let hnt := has_next_tasks g w t route in
-  let e0 := TASK_EVENT_PREFIX ++ status_name st in
-  let e1 := if status_in st ABENDED_STATUSES && (hnt || hbn) then EV_TASK_REMEDIATED else e0 in
-  let e2 := if string_in e1 TASK_CONDITIONAL_EVENTS
-            then e1 ++ (if has_active_tasks w then "_workflow_active" else "_workflow_dormant")
-            else e1 in
-  if negb (starts_with EV_TASK_SUCCEEDED e2) && negb (starts_with EV_TASK_REMEDIATED e2) then e2
-  else if has_canceling_tasks w || has_canceled_tasks w then e2 ++ "_canceled"
-  else if has_pausing_tasks w || has_paused_tasks w then e2 ++ "_paused"
-  else if has_staged_tasks w || hnt then e2 ++ "_incomplete"
-  else e2 ++ "_completed".
+  task_event_name_of st (hnt || hbn) (has_active_tasks w)
+                     (has_canceling_tasks w || has_canceled_tasks w)
+                     (has_pausing_tasks w || has_paused_tasks w)
+                     (has_staged_tasks w || hnt).
 
 (* fail_on_unreachable_barriers: (status, barriers to log) *)
 Definition fail_on_unreachable (g : graph) (w : wstate) : status * list stg :=
